@@ -393,6 +393,114 @@ class KeywordizeCalls(ast.NodeTransformer):
         return node
 
 
+class ExtractArgument(ast.NodeTransformer):
+    """`f(a, g(x))` as a statement, assignment or return becomes `arg_ = g(x); f(a, arg_)`: the first argument that is itself a
+    computation gets a name (only when everything evaluated before it is a plain name / attribute / constant)"""
+
+    def __init__(self):
+        self.k = 0
+        self.in_function = 0
+
+    @staticmethod
+    def _simple(e):
+        return isinstance(e, (ast.Name, ast.Constant)) or (isinstance(e, ast.Attribute) and ExtractArgument._simple(e.value))
+
+    def _rewrite(self, st):
+        if not self.in_function or not isinstance(st, (ast.Assign, ast.Return, ast.Expr)) or not isinstance(st.value, ast.Call):
+            return [st]
+        c = st.value
+        if not self._simple(c.func) or c.keywords and any(k.arg is None for k in c.keywords):
+            return [st]
+        if isinstance(c.func, ast.Attribute) and isinstance(c.func.value, ast.Call):
+            return [st]
+        if isinstance(c.func, ast.Name) and c.func.id in ('super', 'locals', 'globals', 'vars'):
+            return [st]
+        for i, a in enumerate(c.args):
+            if isinstance(a, ast.Starred):
+                return [st]
+            if self._simple(a):
+                continue
+            if isinstance(a, (ast.Call, ast.BinOp, ast.Subscript, ast.JoinedStr, ast.Compare)) and not any(isinstance(n, (ast.Lambda, ast.NamedExpr, ast.Yield, ast.Await)) for n in ast.walk(a)):
+                self.k += 1
+                name = f'arg_{self.k}_'
+                asg = ast.copy_location(ast.Assign(targets=[ast.Name(id=name, ctx=ast.Store())], value=a), st)
+                c.args[i] = ast.copy_location(ast.Name(id=name, ctx=ast.Load()), a)
+                return [asg, st]
+            return [st]
+        return [st]
+
+    def _func(self, node):
+        self.in_function += 1
+        self.generic_visit(node)
+        self.in_function -= 1
+        return node
+
+    visit_FunctionDef = _func
+
+    def visit_Lambda(self, node):
+        return node
+
+    def generic_visit(self, node):
+        super().generic_visit(node)
+        for field in ('body', 'orelse', 'finalbody'):
+            v = getattr(node, field, None)
+            if isinstance(v, list) and v and isinstance(v[0], ast.stmt) and not isinstance(node, (ast.ClassDef, ast.Module)):
+                out = []
+                for st in v:
+                    out.extend(self._rewrite(st))
+                setattr(node, field, out)
+        return node
+
+
+class ComprehensionToLoop(ast.NodeTransformer):
+    """`x = [e for a in b if c]` becomes `x = []` + explicit loop with append (dictionaries: item assignment), when the
+    variables of the comprehension are used nowhere else in the function"""
+
+    def visit_FunctionDef(self, node):
+        self.generic_visit(node)
+        names: dict[str, int] = {}
+        for n in ast.walk(node):
+            if isinstance(n, ast.Name):
+                names[n.id] = names.get(n.id, 0) + 1
+            elif isinstance(n, ast.arg):
+                names[n.arg] = names.get(n.arg, 0) + 1
+
+        def block(stmts):
+            out = []
+            for st in stmts:
+                for field in ('body', 'orelse', 'finalbody'):
+                    v = getattr(st, field, None)
+                    if isinstance(v, list) and v and isinstance(v[0], ast.stmt) and not isinstance(st, (ast.FunctionDef, ast.ClassDef)):
+                        setattr(st, field, block(v))
+                comp = st.value if isinstance(st, ast.Assign) and len(st.targets) == 1 and isinstance(st.targets[0], ast.Name) else None
+                if isinstance(comp, (ast.ListComp, ast.DictComp)):
+                    own = [n for n in ast.walk(comp) if isinstance(n, ast.Name)]
+                    tv = {x.id for g in comp.generators for x in ast.walk(g.target) if isinstance(x, ast.Name)}
+                    inside = {}
+                    for n in own:
+                        inside[n.id] = inside.get(n.id, 0) + 1
+                    tgt = st.targets[0].id
+                    if all(names.get(t, 0) == inside.get(t, 0) for t in tv) and tgt not in inside and not any(isinstance(n, (ast.Lambda, ast.ListComp, ast.DictComp, ast.SetComp, ast.GeneratorExp)) and n is not comp for n in ast.walk(comp)):
+                        if isinstance(comp, ast.ListComp):
+                            init = ast.List(elts=[], ctx=ast.Load())
+                            inner = ast.Expr(value=ast.Call(func=ast.Attribute(value=ast.Name(id=tgt, ctx=ast.Load()), attr='append', ctx=ast.Load()), args=[comp.elt], keywords=[]))
+                        else:
+                            init = ast.Dict(keys=[], values=[])
+                            inner = ast.Assign(targets=[ast.Subscript(value=ast.Name(id=tgt, ctx=ast.Load()), slice=comp.key, ctx=ast.Store())], value=comp.value)
+                        for g in reversed(comp.generators):
+                            for c in reversed(g.ifs):
+                                inner = ast.If(test=c, body=[inner], orelse=[])
+                            inner = ast.For(target=g.target, iter=g.iter, body=[inner], orelse=[])
+                        out.append(ast.copy_location(ast.Assign(targets=[ast.Name(id=tgt, ctx=ast.Store())], value=init), st))
+                        out.append(ast.copy_location(inner, st))
+                        continue
+                out.append(st)
+            return out
+
+        node.body = block(node.body)
+        return node
+
+
 class KeywordizeImported(ast.NodeTransformer):
     """`Beta(n, 1, 0, None, 0)` becomes `Beta(name=n, value=1, ...)` for callees defined once anywhere in the package
     (functions, constructors, methods with a package-unique name), using the signature table of the normal form"""
@@ -418,6 +526,8 @@ class KeywordizeImported(ast.NodeTransformer):
 TRANSFORMS = {
     'all-together': lambda: AllTogether(),
     'keywordize-imported': lambda: KeywordizeImported(),
+    'extract-argument': lambda: ExtractArgument(),
+    'comprehension-to-loop': lambda: ComprehensionToLoop(),
     'keywordize-calls': lambda: KeywordizeCalls(),
     'add-unrelated': lambda: AddUnrelated(),
     'strip-docstrings': lambda: StripDocstrings(),
